@@ -273,7 +273,10 @@ def showOut (v : Bool) (c : Option GErr) (es : List GErr) : String :=
   "valid " ++ toString v ++ " check " ++ (match c with | none => "ok" | some e => gErrStr e) ++
   " errors " ++ toString es.length ++ String.join (es.map (fun e => " " ++ gErrStr e))
 
-def handleValid (inp out : List String) : String :=
+/-- `label`: the answer a JTS `TestValid*.xml` case expects (`C14.jts`), cross-checked against the
+specification: a disagreement that is not explained by interior connectedness (which JTS demands
+and the property does not) is reported as a failure of the check itself. -/
+def handleValid (label : Option Bool) (inp out : List String) : String :=
   match P.run xgeometry inp, P.run implOut out with
   | some g, some o =>
     -- oracle: `relate` := the DE-9IM specification; the segment test on non-finite rings := what
@@ -300,12 +303,27 @@ def handleValid (inp out : List String) : String :=
       " nerr=" ++ toString (min mErrs.length 4) ++
       (if filtered then " relate-out-of-domain-entries-ignored" else "") ++
       (if coordCount g == 0 then " triv" else "")
-    reply same (propVerdict g o cls) tags (showOut mValid mCheck mErrs) (String.intercalate " " out)
+    let conn := match g with
+      | .polygon p => polyConnectedX p
+      | .multiPolygon ps => ps.all polyConnectedX
+      | _ => true
+    let (labelVerdict, labelTag) := match label with
+      | none => ("", "")
+      | some l =>
+        if l == spec then ("", " jts=agrees")
+        else if !l && spec && !conn then ("", " jts=invalid-by-connectedness-only")
+        else ("FAIL:specification-disagrees-with-JTS-label", " jts=DISAGREES")
+    let verdict := if labelVerdict != "" then labelVerdict else propVerdict g o cls
+    reply same verdict (tags ++ labelTag) (showOut mValid mCheck mErrs) (String.intercalate " " out)
   | _, _ => "ERR parse"
 
 def handle (op : String) (inp out : List String) : Option String :=
   match op with
-  | "C14.valid" => some (handleValid inp out)
+  | "C14.valid" => some (handleValid none inp out)
+  | "C14.jts" => (match inp with
+      | "true" :: rest => some (handleValid (some true) rest out)
+      | "false" :: rest => some (handleValid (some false) rest out)
+      | _ => some "ERR parse")
   | _ => none
 
 end Geo.Ops.C14
